@@ -471,6 +471,28 @@ func (e *Engine) Discharge(obligs []*Oblig, timeoutS int, stats *DischargeStats)
 		}(o)
 	}
 	wg.Wait()
+	// fallback for undecided obligations: the slim query (a subset of the hypotheses, so unsat carries over)
+	for _, o := range jobs {
+		if o.Result.Status != "unsat" && o.Result.Status != "sat" && o.SlimScript != "" {
+			wg.Add(1)
+			go func(o *Oblig) {
+				defer wg.Done()
+				sem <- struct{}{}
+				defer func() { <-sem }()
+				to := timeoutS
+				if o.TimeoutS > 0 {
+					to = o.TimeoutS
+				}
+				r := Solve(o.SlimScript, o.Quant, to, e.scratch, o.Name+".slim")
+				if r.Status == "unsat" {
+					r.Backend = "slim:" + r.Backend
+					r.Time += o.Result.Time
+					o.Result = &r
+				}
+			}(o)
+		}
+	}
+	wg.Wait()
 	// candidate counterexamples for undischarged obligations: quantified facts dropped
 	for _, o := range jobs {
 		if o.Result.Status != "unsat" && o.Result.Status != "sat" && o.CandScript != "" {
